@@ -203,6 +203,11 @@ def gen_sweep(rnd, idxs):
         regs[hi], regs[hi + 1] = v >> 8, v & 255
     regs[A] = rnd.choice((0x3F, 0x40, 0x7F, 0x80, 0xBF, 0xC0, 0xFE, 0xFF, rnd.randrange(256)))
     regs[I] = rnd.choice((0x3F, 0x40, 0x7F, 0x80, 0xBF, 0xC0, 0xFE, 0xFF, rnd.randrange(256)))
+    if rnd.random() < 0.6:
+        # 8-bit wrap of C +/- 1 (block I/O flags) and of B (counters): the byte edges, whatever BC is as a pointer
+        regs[C] = rnd.choice((0x00, 0xFF, 0x01, 0xFE))
+    if rnd.random() < 0.3:
+        regs[B] = rnd.choice((0x00, 0x01, 0xFF, 0x80))
     regs[SP] = rnd.choice((0x4002, 0x8000, 0x7FFF, 0xFF00, 0x4001))
     regs[IM] = rnd.choice((1, 2))
     regs[IFF] = 0
@@ -253,8 +258,8 @@ def lockstep(args):
         for rep in range(4):
             start, ov, regs = gen_sweep(rnd, mine[k:k + 16])
             inv = simdrv.r8(rnd)
-            # the contended pair four times (its timing depends on where I, A and the pointers lie), the plain pair once
-            for pair in (PAIRS if rep == 0 else PAIRS[1:]):
+            # the contended pair four times (its timing depends on where I, A and the pointers lie), the plain pair twice
+            for pair in (PAIRS if rep < 2 else PAIRS[1:]):
                 out.append(run_pair(pair, 'sweep', regs, ov, inv, False, 40))
     return out
 
